@@ -148,7 +148,7 @@ def gen_case(rng, i, nprocs):
             if k < 0.4 and p.m.vars:
                 vid = rng.randrange(len(p.m.vars))
                 cur = p.m.vars[vid].name
-                p.rename("var", vid, (b"z" * max(1, len(cur) - rng.randint(0, 2))) if p.var_id(b"z" * max(1, len(cur) - 1)) < 0 else cur[:1] + b"q")
+                p.rename("var", vid, (b"z" * max(1, len(cur) - rng.randint(0, 2))) if p.var_id(b"z" * max(1, len(cur) - 1)) < 0 else cur.decode("utf-8")[:1].encode("utf-8") + b"q")
             elif k < 0.7 and (p.m.gatts):
                 a = rng.choice(p.m.gatts)
                 p.put_att(-1, a.name, a.xtype, max(0, a.nelems - rng.randint(0, 1)))
@@ -298,7 +298,10 @@ class C03(Check):
                         covered[x.begin: x.begin + s.vlen(x)] = True
                 arrb = np.frombuffer(b, dtype=np.uint8)
                 left = (~covered) & (arrb == PAT)
-                if left.sum() >= 4:
+                # the predecessor was solid PAT; stale copies of moved data in gaps may contain the odd PAT byte by chance,
+                # so only a run of 8 counts as a survivor
+                run = np.convolve(left.astype(np.int32), np.ones(8, dtype=np.int32), mode="valid") if len(left) >= 8 else np.zeros(0)
+                if (run == 8).any():
                     v.append(Violation("clobber|survivor", "%s: %d bytes of the clobbered predecessor (0x%02X) survive outside header and data, first at %d" % (what, int(left.sum()), PAT, int(np.argmax(left))), res))
                 self.count("clobber_checks")
         return v
